@@ -22,7 +22,7 @@ ASSUMPTIONS = [
     "remotes emulated by a non-local FileSystem over local disk",
 ]
 MONITORS = "os.walk listings of every remote/cache before and after vs independently computed reachable/designated sets; pushed/failed counts vs objects that newly appeared; workspace walk after checkout"
-REQUIRED_COUNTERS = ["cases_collecting_into_one_cache_index", "fetches_followed_through_a_callback", "cases_with_verifying_remotes", "cases_with_an_empty_prefix", "remote_loss_rounds", "remote_objects_lost", "fetches_from_read_only_remotes", "collect_given_a_view", "layout/tops-only", "layout/root+deep", "layout/root+tops", "lazy_index_cases", "pushes", "fetches", "failure_rounds", "retries", "checkouts_from_fetched_cache", "multi_prefix_cases", "role_fallback_checks",
+REQUIRED_COUNTERS = ["partial_fetches_before_the_full_one", "cases_collecting_into_one_cache_index", "fetches_followed_through_a_callback", "cases_with_verifying_remotes", "cases_with_an_empty_prefix", "remote_loss_rounds", "remote_objects_lost", "fetches_from_read_only_remotes", "collect_given_a_view", "layout/tops-only", "layout/root+deep", "layout/root+tops", "lazy_index_cases", "pushes", "fetches", "failure_rounds", "retries", "checkouts_from_fetched_cache", "multi_prefix_cases", "role_fallback_checks",
                      "objects_designation_checked", "shared_cache_cases", "exhaustive_subset_cases", "remote_index_cases"]
 
 
@@ -378,8 +378,20 @@ def run_shard(ctx):
 
                 fkw = {"callback": _CB()}
                 res.count("fetches_followed_through_a_callback")
+            pre_fetched = 0
+            if not lazy and not split_remote and rng.random() < 0.2:
+                # first only a part is fetched (one file and the directories above it - what a granular fetch of one target does), then all of it
+                from dvc_data.index import view as _view
+
+                fk_ = rng.choice(sorted(k for k, e in idx2.iteritems() if not (e.meta and e.meta.isdir)) or [None])
+                if fk_ is not None:
+                    part_ = _view(idx2, lambda key, fk_=fk_: key == fk_[: len(key)])
+                    fetch(collect([part_], "remote"))
+                    pre_fetched = sum(len(store_snapshot(o.path)) for o in fresh.values())
+                    res.count("partial_fetches_before_the_full_one")
             fetched, ffailed = fetch(collect([handed(idx2)], "remote"), **fkw)
             cstate = {n: store_snapshot(o.path) for n, o in fresh.items()}
+            fetched += pre_fetched
             if ffailed:
                 res.violation("fetch-reports-failures", f"fault-free fetch reported failed={ffailed}", case=case, detail=cfg)
             if fetched != sum(len(v) for v in cstate.values()) and not split_remote:
